@@ -44,7 +44,7 @@ var _ plugintypes.Operator = (*pm)(nil)
 func newPM(options plugintypes.OperatorOptions) (plugintypes.Operator, error) {
 	data := options.Arguments
 
-	data = strings.ToLower(data)
+	data = asciiLower(data)
 	// consecutive spaces do not denote an empty phrase (which would match every input)
 	dict := make([]string, 0, 8)
 	for _, w := range strings.Split(data, " ") {
@@ -62,6 +62,18 @@ func newPM(options plugintypes.OperatorOptions) (plugintypes.Operator, error) {
 	m, _ := memoizeDo(options.Memoizer, "pm:"+data, func() (any, error) { return builder.Build(dict), nil })
 	// TODO this operator is supposed to support snort data syntax: "@pm A|42|C|44|F"
 	return &pm{matcher: m.(ahocorasick.AhoCorasick), minLen: minPatternLen(dict)}, nil
+}
+
+// asciiLower lower-cases the ASCII letters of a phrase list and keeps every other byte as it is
+// (strings.ToLower would rewrite bytes that are not valid UTF-8, and the phrase could never match).
+func asciiLower(s string) string {
+	b := []byte(s)
+	for i, c := range b {
+		if c >= 'A' && c <= 'Z' {
+			b[i] = c + ('a' - 'A')
+		}
+	}
+	return string(b)
 }
 
 func (o *pm) Evaluate(tx plugintypes.TransactionState, value string) bool {
